@@ -30,7 +30,7 @@ from pathlib import Path
 
 REPO = Path(os.environ.get("VERIF_REPO", "/repo"))
 SRC = REPO / "src" / "anyio" / "streams" / "buffered.py"
-OUT = Path(__file__).resolve().parent.parent / "coq" / "pure" / "BufGen.v"
+OUT = Path(os.environ["VERIF_GEN_OUT"]) if os.environ.get("VERIF_GEN_OUT") else Path(__file__).resolve().parent.parent / "coq" / "pure" / "BufGen.v"
 
 
 class Refused(Exception):
@@ -133,20 +133,41 @@ class Method:
         self.map = {par: "PAR"}
         if delim:
             self.map[delim] = "DELIM"
+        self.par_names = set(self.map)
+        self.slot_owner: dict[str, str] = {}
+        self.val_is_bytes = False
 
     def R(self, node, what):
         refuse(self.name, node, what)
 
+    GLOBALS = {"self", "len", "bytes", "max", "isinstance", "ByteReceiveStream", "ValueError", "ClosedResourceError",
+               "DelimiterNotFound", "EndOfStream", "IncompleteRead"}
+
     def canon(self, node) -> str:
         import copy
+        # every name that is READ must be a parameter or a local bound earlier on this path (Python would raise
+        # UnboundLocalError / NameError; the slot names themselves are ordinary identifiers and must not leak through)
+        for n in ast.walk(node):
+            if isinstance(n, ast.Name) and isinstance(n.ctx, ast.Load) and n.id not in self.map and n.id not in self.GLOBALS:
+                self.R(n, f"name `{n.id}` is read but not bound on this path")
+            if isinstance(n, ast.Name) and isinstance(n.ctx, ast.Load) and str(self.map.get(n.id, "")).startswith("<"):
+                self.R(n, f"name `{n.id}`: {self.map[n.id]}")
         return ast.unparse(Renamer(self.map).visit(copy.deepcopy(node)))
 
     def bind(self, s):
         """an assignment to a plain name moves that name to the slot its value decides (before the statement is read)"""
         if isinstance(s, ast.Assign) and len(s.targets) == 1 and isinstance(s.targets[0], ast.Name):
             value_txt = self.canon(s.value)           # the value is read with the map as it was
-            self.map[s.targets[0].id] = slot_of_binding(s.targets[0].id, s.value)
-            return f"{self.map[s.targets[0].id]} = {value_txt}"
+            nm, slot = s.targets[0].id, slot_of_binding(s.targets[0].id, s.value)
+            # one Python name per slot and method: two names sharing a slot would be indistinguishable afterwards
+            # (`while not chunk: data = await ...` must not look like `while not chunk: chunk = await ...`)
+            owner = self.slot_owner.setdefault(slot, nm)
+            if owner != nm or nm in (self.par_names):
+                self.R(s, f"slot `{slot}` is bound through two different names (`{owner}`, `{nm}`) or a parameter is rebound")
+            if slot == "val":
+                self.val_is_bytes = value_txt.startswith("bytes(")
+            self.map[nm] = slot
+            return f"{slot} = {value_txt}"
         return None
 
     def branches(self, fa, fb):
@@ -185,6 +206,12 @@ class Method:
         if isinstance(s, ast.If):
             c = self.cond(s.test)
             a, b = self.branches(lambda: self.block(s.body, eos), lambda: self.block(s.orelse, eos))
+            # two branches are dead in the MODEL (no aclose(), no second reader): the equality proofs cannot see them, so
+            # their text is fixed here
+            if c == "CClosed" and (a, b) != ("(BRaise XClosed)", "BSkip"):
+                self.R(s, "`if self._closed:` must be followed by `raise ClosedResourceError` only")
+            if c == "CBufLenGeSearched" and (a, b) != ("(BAtom ASetOffsetMax)", "(BAtom ASetOffset0)"):
+                self.R(s, "the branches of `if len(self._buffer) >= searched_size:` must be the offset computation and `offset = 0`")
             return f"(BIf {c} {a} {b})"
         if isinstance(s, ast.Return):
             if s.value is not None and is_wrapped_receive(s.value):
@@ -197,6 +224,8 @@ class Method:
             k = self.canon(s)
             if k not in RETURNS:
                 self.R(s, f"return outside the table: {k}")
+            if k == "return val" and not self.val_is_bytes:
+                self.R(s, "`return <slice of the bytearray>` without bytes(): the method would return a bytearray")
             return f"(BReturn {RETURNS[k]})"
         if isinstance(s, ast.Raise):
             e = s.exc
@@ -256,9 +285,19 @@ class Method:
                 self.R(s, "nested loops")
             t = ast.unparse(s.test)
             if t == "True":
-                return f"(SWhileTrue {self.block(s.body, 'EPropagate')})"
+                before = dict(self.map)
+                body = self.block(s.body, 'EPropagate')
+                for k_, v_ in before.items():
+                    if self.map.get(k_) != v_:
+                        self.R(s, f"name `{k_}` changes its slot inside the loop")
+                return f"(SWhileTrue {body})"
             if self.canon(s.test) == "not chunk":
-                return f"(SWhileNotChunk {self.block(s.body, 'EPropagate')})"
+                before = dict(self.map)
+                body = self.block(s.body, 'EPropagate')
+                for k_, v_ in before.items():
+                    if self.map.get(k_) != v_:
+                        self.R(s, f"name `{k_}` changes its slot inside the loop")
+                return f"(SWhileNotChunk {body})"
             self.R(s, f"loop condition outside the grammar: {t}")
         if isinstance(s, ast.If) and (self.has_loop(s.body) or self.has_loop(s.orelse)):
             c = self.cond(s.test)
@@ -283,17 +322,74 @@ def literal(cls, name, want: str):
         refuse(name, fn, f"body differs from the checked literal: {got[:120]}")
 
 
+# everything in the module that is NOT a method body: checked literally (imports decide what `EndOfStream`,
+# `ByteReceiveStream` ... mean; a module-level or class-level statement can rebind a method; a decorator can wrap one)
+MODULE_LEVEL = [
+    "from __future__ import annotations",
+    "__all__ = ('BufferedByteReceiveStream', 'BufferedByteStream', 'BufferedConnectable')",
+    "import sys",
+    "from collections.abc import Callable, Iterable, Mapping",
+    "from dataclasses import dataclass, field",
+    "from typing import Any, SupportsIndex",
+    "from .. import ClosedResourceError, DelimiterNotFound, EndOfStream, IncompleteRead",
+    "from ..abc import AnyByteReceiveStream, AnyByteStream, AnyByteStreamConnectable, ByteReceiveStream, ByteStream, ByteStreamConnectable",
+    "if sys.version_info >= (3, 12):\n    from typing import override\nelse:\n    from typing_extensions import override",
+]
+# class -> (decorators, bases, class-level statements other than defs and the docstring, {method: (decorators, params, defaults)})
+SKELETON = {
+    "BufferedByteReceiveStream": (["dataclass(eq=False)"], ["ByteReceiveStream"],
+                                  ["receive_stream: AnyByteReceiveStream",
+                                   "_buffer: bytearray = field(init=False, default_factory=bytearray)",
+                                   "_closed: bool = field(init=False, default=False)"],
+                                  {"aclose": ([], ["self"], []), "buffer": (["property"], ["self"], []),
+                                   "extra_attributes": (["property"], ["self"], []), "feed_data": ([], ["self", "data"], []),
+                                   "receive": ([], ["self", None], ["65536"]), "receive_exactly": ([], ["self", None], []),
+                                   "receive_until": ([], ["self", None, None], [])}),
+    "BufferedByteStream": ([], ["BufferedByteReceiveStream", "ByteStream"], [],
+                           {"__init__": ([], ["self", "stream"], []), "send_eof": (["override"], ["self"], []),
+                            "send": (["override"], ["self", "item"], [])}),
+    "BufferedConnectable": ([], ["ByteStreamConnectable"], [],
+                            {"__init__": ([], ["self", "connectable"], []), "connect": (["override"], ["self"], [])}),
+}
+
+
+def check_skeleton(mod):
+    got = [ast.unparse(n) for n in mod.body if not isinstance(n, ast.ClassDef)
+           and not (isinstance(n, ast.Expr) and isinstance(n.value, ast.Constant) and isinstance(n.value.value, str))]
+    if got != MODULE_LEVEL:
+        diff = [g for g in got if g not in MODULE_LEVEL] + [f"(missing) {w}" for w in MODULE_LEVEL if w not in got]
+        refuse("module", mod, f"module-level statements differ from the checked literal: {diff[:3]}")
+    classes = [n for n in mod.body if isinstance(n, ast.ClassDef)]
+    if [c.name for c in classes] != list(SKELETON):
+        refuse("module", mod, f"classes differ: {[c.name for c in classes]}")
+    for c in classes:
+        decos, bases, stmts, methods = SKELETON[c.name]
+        if [ast.unparse(d) for d in c.decorator_list] != decos or [ast.unparse(b) for b in c.bases] != bases or c.keywords:
+            refuse(c.name, c, "class decorators / bases differ")
+        other = [ast.unparse(x) for x in c.body if not isinstance(x, (ast.FunctionDef, ast.AsyncFunctionDef))
+                 and not (isinstance(x, ast.Expr) and isinstance(x.value, ast.Constant) and isinstance(x.value.value, str))]
+        if other != stmts:
+            refuse(c.name, c, f"class-level statements differ: {other}")
+        defs = [x for x in c.body if isinstance(x, (ast.FunctionDef, ast.AsyncFunctionDef))]
+        if sorted(d.name for d in defs) != sorted(methods):
+            refuse(c.name, c, f"set of methods differs: {sorted(d.name for d in defs)}")
+        for d in defs:
+            wd, wparams, wdefaults = methods[d.name]
+            params = [a.arg for a in d.args.posonlyargs + d.args.args]
+            ok = ([ast.unparse(x) for x in d.decorator_list] == wd and len(params) == len(wparams)
+                  and all(w is None or w == g for w, g in zip(wparams, params))
+                  and [ast.unparse(x) for x in d.args.defaults] == wdefaults
+                  and not d.args.vararg and not d.args.kwarg and not d.args.kwonlyargs)
+            if not ok:
+                refuse(f"{c.name}.{d.name}", d, f"decorators / signature differ: {[ast.unparse(x) for x in d.decorator_list]} {params}")
+
+
 def generate() -> str:
     mod = ast.parse(SRC.read_text())
+    check_skeleton(mod)
     cls = next((n for n in mod.body if isinstance(n, ast.ClassDef) and n.name == "BufferedByteReceiveStream"), None)
     if cls is None:
         refuse("module", mod, "class BufferedByteReceiveStream missing")
-    methods = sorted(n.name for n in cls.body if isinstance(n, (ast.FunctionDef, ast.AsyncFunctionDef)))
-    want = sorted(["__init__", "aclose", "buffer", "extra_attributes", "feed_data", "receive", "receive_exactly", "receive_until"])
-    if methods != want:
-        # a dataclass without __init__ (fields with defaults) is the other accepted layout
-        if methods != sorted(set(want) - {"__init__"}):
-            refuse("class", cls, f"set of methods differs: {methods}")
     literal(cls, "feed_data", "self._buffer.extend(data)")
     literal(cls, "buffer", "return bytes(self._buffer)")
     literal(cls, "aclose", "await self.receive_stream.aclose(); self._closed = True")
@@ -317,9 +413,6 @@ def generate() -> str:
             refuse(cname, c2, f"set of methods differs: {names}")
         for mname, body in want.items():
             literal(c2, mname, body)
-    fields = [ast.unparse(s) for s in cls.body if isinstance(s, ast.AnnAssign)]
-    if not any(f.startswith("_buffer: bytearray = field(init=False, default_factory=bytearray)") for f in fields):
-        refuse("class", cls, f"_buffer field differs: {fields}")
 
     def get(name):
         fn = next((n for n in cls.body if isinstance(n, ast.AsyncFunctionDef) and n.name == name), None)
@@ -333,6 +426,8 @@ def generate() -> str:
     if len(a) != 2 or ast.unparse(fn.args.defaults[0]) != "65536":
         refuse("receive", fn, "signature")
     out["gen_receive"] = Method(fn, a[1], None).translate()
+    if "(SBlock (BIf CClosed (BRaise XClosed) BSkip))" not in out["gen_receive"]:
+        refuse("receive", fn, "the `if self._closed: raise ClosedResourceError` test is missing (dead in the model, fixed here)")
     fn = get("receive_exactly")
     a = [x.arg for x in fn.args.args]
     if len(a) != 2 or fn.args.defaults:
